@@ -1,6 +1,7 @@
 /- Driver op `pflagparse`: Spec/Pflag.lean vs the real carapace-pflag (C01) -/
 import Driver.Parse
 import Carapace.Spec.Pflag
+import Carapace.Spec.PflagG
 
 namespace Driver
 open Lean Carapace Carapace.Model Carapace.Spec
@@ -26,9 +27,17 @@ def finalValues (fs : Pflag.PFlags) (sets : List (Str × Str)) : List (String ×
   sortBy (fun a b => Str.lt a.1.toList b.1.toList) out
 
 def runPflagParseOp (inp out : Json) : Json :=
-  let fs := (jarr inp "flags").toList.map (fun j => toPFlag (parseFlagS j))
+  let flagsS := (jarr inp "flags").toList.map parseFlagS
+  let fs := flagsS.map toPFlag
   let args := (jarr inp "args").toList.map (fun x => (jstr x).toList)
-  let model := Pflag.parse fs (jbool inp "interspersed") args
+  -- the general specification (fork features); without them the POSIX specification, which the theorems use, must agree
+  let forky := flagsS.any FlagS.fork
+  let modelP := Pflag.parse fs (jbool inp "interspersed") args
+  let model := PflagG.parseG (flagsS.map toPFlagG) (jbool inp "interspersed") args
+  let specsAgree := forky || (match model, modelP with
+    | .ok a, .ok b => a == b
+    | .error a, .error b => a == b
+    | _, _ => false)
   let realErr := jstr (jget out "err")
   let realArgs := (jarr out "args").toList.map (fun x => (jstr x).toList)
   let realLad := jint out "lenAtDash"
@@ -36,7 +45,7 @@ def runPflagParseOp (inp out : Json) : Json :=
     ((jarr out "values").toList.map (fun p => match p.getArr? with
       | .ok a => (jstr (a.getD 0 Json.null), jstr (a.getD 1 Json.null))
       | .error _ => ("", "")))
-  let same :=
+  let same := specsAgree &&
     match model with
     | .error _ => realErr != ""
     | .ok p => realErr == "" && p.args == realArgs && (match p.lenAtDash with | some n => (n : Int) == realLad | none => realLad == -1) &&
@@ -44,6 +53,6 @@ def runPflagParseOp (inp out : Json) : Json :=
   Json.mkObj [("same", Json.bool same),
               ("diff", Json.str (if same then "" else s!"model {repr model} -> {(match model with | .ok p => finalValues fs p.sets | _ => [])}; real err={realErr} args={realArgs.map String.ofList} dash={realLad} values={realVals}")),
               ("fails", Json.arr #[]),
-              ("feat", Json.mkObj [("nargs", Json.num args.length), ("ok", Json.bool (realErr == "")), ("dash", Json.bool (realLad != -1))])]
+              ("feat", Json.mkObj [("fork", Json.bool forky), ("nargs", Json.num args.length), ("ok", Json.bool (realErr == "")), ("dash", Json.bool (realLad != -1))])]
 
 end Driver
